@@ -927,7 +927,8 @@ class Engine:
             emit_time = round(emit_time, self.global_time_precision)
 
         while self.global_time < end_time or force_complete:
-            full_step = math.inf
+            # time of the next event (end of an interval)
+            next_time = math.inf
             self._remove_deleted_processes()
 
             # processes at quiet paths don't meet their execution condition,
@@ -982,9 +983,7 @@ class Engine:
                             self.front[path]['time'] = future
                             self.front[path]['update'] = update
 
-                            # absolute timestep
-                            timestep = future - self.global_time
-                            full_step = min(full_step, timestep)
+                            next_time = min(next_time, future)
                         else:
                             # mark this path "quiet" so its time can be advanced
                             self.front[path]['update'] = (EmptyDefer(), store)
@@ -992,24 +991,19 @@ class Engine:
 
                             # wake up at the end of the quiet interval
                             # at the latest
-                            timestep = future - self.global_time
-                            full_step = min(full_step, timestep)
+                            next_time = min(next_time, future)
                     else:
                         # the interval ends after end_time: keep the
                         # process waiting with the timestep it asked for
                         self.front[path]['deferred'] = process_timestep
-
-                        # absolute timestep
-                        timestep = future - self.global_time
-                        full_step = min(full_step, timestep)
+                        next_time = min(next_time, future)
 
                 else:
                     # don't shoot past processes that didn't run this time
-                    process_delay = process_time - self.global_time
-                    full_step = min(full_step, process_delay)
+                    next_time = min(next_time, process_time)
 
             # apply updates based on process times in self.front
-            if full_step == math.inf:
+            if next_time == math.inf:
                 # no processes ran, jump to next process
                 next_event = end_time
                 for path in self.front.keys():
@@ -1017,10 +1011,12 @@ class Engine:
                         next_event = self.front[path]['time']
                 self.global_time = next_event
 
-            elif self.global_time + full_step <= end_time:
+            elif next_time <= end_time:
                 # at least one process ran within the interval
-                # increase the time, apply updates, and continue
-                self.global_time += full_step
+                # move to the time of the next event (not by adding a
+                # difference, which accumulates floating-point error),
+                # apply updates, and continue
+                self.global_time = next_time
 
                 # advance all quiet processes to current time
                 for quiet in quiet_paths:
